@@ -37,74 +37,86 @@ func c13LessCount(e expr.Expr) (n int, mismatched bool) {
 	return
 }
 
+var colC13 *ev.Collector
+
+// propC13 is the property of C13; it is shared by the rapid test and the native
+// fuzz target.
+func propC13(t *rapid.T) {
+	col := colC13
+	col.Case()
+	cfg := irsem.GenCfg{MaxDepth: rapid.IntRange(1, 5).Draw(t, "depth"), GadgetProb: 10, LessBudget: 4096, MoreLess: true}
+	e := irsem.GenExpr(t, cfg)
+	before := irsem.String(e)
+	wantN := c13Count(e)
+	if wantN > 4096 {
+		t.Fatalf("generator bug: %d alternatives", wantN)
+	}
+
+	var ps []expr.Expr
+	if msg := catch(func() { ps = exprtransform.Possibilities(e) }); msg != "" {
+		t.Fatalf("Possibilities(%s): %s", before, msg)
+	}
+	if irsem.String(e) != before {
+		t.Fatalf("Possibilities modified its argument")
+	}
+	if len(ps) != wantN {
+		t.Fatalf("Possibilities(%s) has %d alternatives, model says %d", before, len(ps), wantN)
+	}
+	for i, p := range ps {
+		if p.Width() != e.Width() {
+			t.Fatalf("alternative %d of %s has width %d, want %d: %s", i, before, p.Width(), e.Width(), irsem.String(p))
+		}
+		if n, _ := c13LessCount(p); n != 0 {
+			t.Fatalf("alternative %d of %s still contains a conditional: %s", i, before, irsem.String(p))
+		}
+	}
+	for k := 0; k < 3; k++ {
+		env := irsem.NewHashEnv(drawEnvSeed(t, "env"))
+		want := irsem.Eval(e, env)
+		found := false
+		for _, p := range ps {
+			if irsem.Eval(p, env).Cmp(want) == 0 {
+				found = true
+				break
+			}
+		}
+		if !found {
+			t.Fatalf("no alternative of %s evaluates to %x under valuation seed %d (alternatives: %d)", before, want, env.Seed, len(ps))
+		}
+	}
+
+	n, mism := c13LessCount(e)
+	switch {
+	case n >= 2 && mism:
+		col.Class("less>=2/mismatched-widths")
+		col.Nontrivial(before)
+	case n >= 2:
+		col.Class("less>=2")
+	case n == 1:
+		col.Class("less=1")
+	default:
+		col.Class("less=0")
+	}
+	if col.WantSample() {
+		col.Sample(map[string]interface{}{"expr": before, "alternatives": len(ps)})
+	} else {
+		col.SkipSample()
+	}
+}
+
 func TestC13(t *testing.T) {
-	col := ev.New("C13", "rapid: expression trees (depth <= 5) with conditionals nested in conditions, branches, "+
+	colC13 = ev.New("C13", "rapid: expression trees (depth <= 5) with conditionals nested in conditions, branches, "+
 		"binary operands and memory-load addresses, alternatives capped at 4096 by a budget passed down the generator; "+
 		"every alternative must have the expression's width and no conditional, the count must equal the model count, "+
 		"and under 3 valuations the value of the expression must equal the value of some alternative (math/big "+
 		"evaluator). non-trivial = >=2 conditionals with a branch width different from the conditional's width; "+
 		"distinct by tree rendering")
+	col := colC13
 	defer col.Flush()
 
-	rapid.Check(t, func(t *rapid.T) {
-		col.Case()
-		cfg := irsem.GenCfg{MaxDepth: rapid.IntRange(1, 5).Draw(t, "depth"), GadgetProb: 10, LessBudget: 4096, MoreLess: true}
-		e := irsem.GenExpr(t, cfg)
-		before := irsem.String(e)
-		wantN := c13Count(e)
-		if wantN > 4096 {
-			t.Fatalf("generator bug: %d alternatives", wantN)
-		}
-
-		var ps []expr.Expr
-		if msg := catch(func() { ps = exprtransform.Possibilities(e) }); msg != "" {
-			t.Fatalf("Possibilities(%s): %s", before, msg)
-		}
-		if irsem.String(e) != before {
-			t.Fatalf("Possibilities modified its argument")
-		}
-		if len(ps) != wantN {
-			t.Fatalf("Possibilities(%s) has %d alternatives, model says %d", before, len(ps), wantN)
-		}
-		for i, p := range ps {
-			if p.Width() != e.Width() {
-				t.Fatalf("alternative %d of %s has width %d, want %d: %s", i, before, p.Width(), e.Width(), irsem.String(p))
-			}
-			if n, _ := c13LessCount(p); n != 0 {
-				t.Fatalf("alternative %d of %s still contains a conditional: %s", i, before, irsem.String(p))
-			}
-		}
-		for k := 0; k < 3; k++ {
-			env := irsem.NewHashEnv(drawEnvSeed(t, "env"))
-			want := irsem.Eval(e, env)
-			found := false
-			for _, p := range ps {
-				if irsem.Eval(p, env).Cmp(want) == 0 {
-					found = true
-					break
-				}
-			}
-			if !found {
-				t.Fatalf("no alternative of %s evaluates to %x under valuation seed %d (alternatives: %d)", before, want, env.Seed, len(ps))
-			}
-		}
-
-		n, mism := c13LessCount(e)
-		switch {
-		case n >= 2 && mism:
-			col.Class("less>=2/mismatched-widths")
-			col.Nontrivial(before)
-		case n >= 2:
-			col.Class("less>=2")
-		case n == 1:
-			col.Class("less=1")
-		default:
-			col.Class("less=0")
-		}
-		if col.WantSample() {
-			col.Sample(map[string]interface{}{"expr": before, "alternatives": len(ps)})
-		} else {
-			col.SkipSample()
-		}
-	})
+	rapid.Check(t, propC13)
 }
+
+// FuzzC13 drives the same property with Go's coverage-guided fuzzer (thorough
+// tier only; see DESIGN.md).
+func FuzzC13(f *testing.F) { f.Fuzz(rapid.MakeFuzz(propC13)) }
